@@ -23,7 +23,7 @@ PROPERTIES = {
         ],
         bounded=[
             "sugar monitors (Always/Eventually/Implies): traces of length <= 5, every position, operand values symbolic",
-            "end-to-end families on the real rv_ltl pipeline: 90 formulas of depth <= 2 over 2 atoms (+ `a until ((next next c) or d)`), all traces of length <= 4",
+            "end-to-end families on the real rv_ltl pipeline: 88 formulas of depth <= 2 over 2 atoms + `a until ((next next c) or d)` and its negation, all traces of length <= 4",
             "sem4-vs-sat lemmas: 235 formulas, traces of length <= 4 with all extensions up to length 4",
             "Scenic proposition layer end to end: 11 formulas (every operator), all traces of length <= 3",
             "And/Or monitors and constructors: 0..3 operands; DynamicScenario._step/_stop: 3 / 2 requirement monitors",
@@ -31,7 +31,7 @@ PROPERTIES = {
         ],
         not_reached=[
             "PendingRequirement.compile.closure / DynamicRequirement.__init__.closure (veneer.executeInRequirement / executeInScenario context managers around monitor.update())",
-            "DynamicScenario._addDynamicRequirement / _compileRequirements (which requirements become monitors of which scenario; sub-scenario nesting)",
+            "DynamicScenario._start (turns the registered requirements into monitors) and _compileRequirements (which requirements belong to which scenario; sub-scenario nesting)",
             "grammar-level precedence of the temporal operators (scenic.gram, C10; F31)",
             "ScenicToPythonTransformer.createRequirementLike (wrapping of the transformed proposition into the veneer.require call)",
         ],
